@@ -193,7 +193,7 @@ def _worker(args):
     res = ShapeResult(shape)
     t = time.time()
     try:
-        prog, _ = engine.load_program()
+        prog, _ = engine.load_program(deps=getattr(mod, 'DEPS', ()))
         mod.run_shape(prog, shape, tier, seed, res)
     except Unsupported as e:
         res.inconclusive.append('%s: %s' % (shape, e))
@@ -210,7 +210,7 @@ def _worker(args):
 def run_shapes(modname, shapes, tier, seed, jobs=NPROC, progress=True):
     """Run `run_shape` of module `modname` over all shapes in a process pool."""
     # make sure the MIR is dumped once, before forking
-    engine.load_program()
+    engine.load_program(deps=getattr(sys.modules.get(modname), 'DEPS', ()))
     args = [(modname, s, tier, seed) for s in shapes]
     results = []
     t0 = time.time()
@@ -300,7 +300,7 @@ def run_check(spec, argv):
     PROP = spec.PROP
     tier, seed = tier_and_seed(argv)
     t0 = time.time()
-    prog, mir_info = engine.load_program()
+    prog, mir_info = engine.load_program(deps=getattr(spec, 'DEPS', ()))
     rp = Replay()
     try:
         ncases, mism = spec.conformance(prog, rp, seed, tier)
